@@ -2,6 +2,9 @@ use crate::line::Line;
 use crate::parser::Parser;
 use crate::terminal::{Cursor, Terminal};
 
+#[cfg(feature = "verif")]
+mod verif;
+
 #[derive(Debug)]
 pub struct Vt {
     parser: Parser,
